@@ -47,6 +47,23 @@ def _call(f):
     return _call0(f, errors=(ValueError, IndexError))
 
 
+def _fit(ctx, f, sig, desc):
+    """Fit an estimator on a valid (non-empty) input.  An exception that comes out of the library means that no
+    label is assigned at all: reported as a failing input.  An exception raised by this file is a tool failure."""
+    import traceback
+    try:
+        f()
+        return True
+    except Exception as e:
+        tb = traceback.extract_tb(e.__traceback__)
+        if tb and tb[-1].filename.endswith('c05.py'):
+            raise
+        ctx.spec_fail(dict(sig, output='fit raised'), desc,
+                      {'exception': repr(e), 'where': '%s:%s' % (tb[-1].filename, tb[-1].lineno) if tb else None})
+        ctx.count('fit-error:%s:%s' % (sig.get('entry'), type(e).__name__))
+        return False
+
+
 # ---------------------------------------------------------------------------------------------
 # encoding helpers
 # ---------------------------------------------------------------------------------------------
@@ -204,7 +221,7 @@ def secondary_cases(ctx, name, est, b, bip, sig0, desc, key0):
     """run + spec lines for probs_/probs_row_/probs_col_/aggregate_ of a fitted estimator."""
     out = []
     lab = all_labels(est)
-    k = max(lab) + 1
+    k = max(lab) + 1 if lab else 0
     g = enc_csr(b)
     rp, ra = bool(est.return_probs), bool(est.return_aggregate)
     impl = 'ok %s %s %s %s' % (opt(None if est.probs_ is None else est.probs_.toarray(), enc_mat),
@@ -241,15 +258,13 @@ def louvain_cases(ctx, cls_name, b, params, force_bipartite):
     key0 = (cls_name, enc_csr(b), tuple(sorted(params.items())), force_bipartite)
     est = cls(**params)
     rec = Recorder(est)
-    res = _call(lambda: (est.fit(b, force_bipartite=force_bipartite), 'ok')[1])
-    if res != 'ok':
-        ctx.count('fit-error:%s:%s' % (cls_name, res))
+    if not _fit(ctx, lambda: est.fit(b, force_bipartite=force_bipartite), sig0, desc):
         return []
     bip = bool(est.bipartite)
     sig0['bipartite'] = bip
     lab = all_labels(est)
     n_all = b.shape[0] + (b.shape[1] if bip else 0)
-    nontriv = max(lab) >= 1
+    nontriv = len(lab) > 0 and max(lab) >= 1
     out = []
     # the property on the output
     out.append(Case(key0 + ('valid',), dict(sig0, output='labels_'), None, None,
@@ -265,7 +280,10 @@ def louvain_cases(ctx, cls_name, b, params, force_bipartite):
     else:
         run = 'c05.leiden %d %d %s %s %s %s' % (rec.n, est.n_aggregations, enc_listlist(raws),
                                                 enc_listlist(rec.refined), enc_list(flags), tail)
-    out.append(Case(key0 + ('pipeline',), dict(sig0, output='pipeline'), run, impl, None, nontriv, desc,
+    eff = raws if cls_name == 'Louvain' else (list(rec.refined[:-1]) + [raws[-1]])
+    spec = 'c05.spec_post %s %s %s %s' % (enc_listlist(eff), enc_list(rec.index), enc_bool(est.shuffle_nodes),
+                                          enc_list(lab))
+    out.append(Case(key0 + ('pipeline',), dict(sig0, output='pipeline'), run, impl, spec, nontriv, desc,
                     canon='fitted_sorted' if est.sort_clusters else None))
     ctx.count('levels:%d' % len(rec.levels))
     if cls_name == 'Leiden':
@@ -313,15 +331,14 @@ def propagation_cases(ctx, b, params):
     key0 = ('PropagationClustering', enc_csr(b), tuple(sorted((k, str(v)) for k, v in params.items())))
     est = PropagationClustering(**params)
     with PropRecorder() as rec:
-        res = _call(lambda: (est.fit(b), 'ok')[1])
-    if res != 'ok':
-        ctx.count('fit-error:PropagationClustering:%s' % res)
+        ok = _fit(ctx, lambda: est.fit(b), sig0, desc)
+    if not ok:
         return []
     bip = bool(est.bipartite)
     sig0['bipartite'] = bip
     lab = all_labels(est)
     n_all = b.shape[0] + (b.shape[1] if bip else 0)
-    nontriv = max(lab) >= 1
+    nontriv = len(lab) > 0 and max(lab) >= 1
     out = [Case(key0 + ('valid',), dict(sig0, output='labels_'), None, None,
                 'c05.spec_valid %d %s %s' % (n_all, enc_list(lab), enc_bool(est.sort_clusters)), nontriv, desc)]
     run = 'c05.prop %s %s %s %d' % (enc_list(rec.raw_attr), enc_bool(est.sort_clusters), enc_bool(bip), b.shape[0])
@@ -406,7 +423,9 @@ def kcenters_cases(ctx, b, params, force_bipartite, seed):
     for t, c in enumerate(rec.centers):
         out.append(Case(key0 + ('init', t), dict(sig0, output='_init_centers'),
                         'c05.initcenters %s %d %d %s %d %s' % (enc_bool(bip), nr, nc, pos, est.n_clusters, enc_list(c)),
-                        'ok %s 1' % enc_list(c), None, nontriv, desc))
+                        'ok %s 1' % enc_list(c),
+                        'c05.spec_centers %s %d %d %s %d %s' % (enc_bool(bip), nr, nc, pos, est.n_clusters, enc_list(c)),
+                        nontriv, desc))
     return out
 
 
